@@ -4,13 +4,13 @@
 package pipe
 
 import (
-	"regexp"
 	"bytes"
 	"fmt"
 	gotoken "go/token"
 	gotypes "go/types"
 	"os"
 	"path/filepath"
+	"regexp"
 	"runtime/debug"
 	"sort"
 	"strconv"
